@@ -79,10 +79,16 @@ pub enum ErrKind {
     WouldBlock,
     ConnectionReset,
     InvalidData,
+    /// errors that carry an operating-system code (`from_raw_os_error`), as every
+    /// error of a real file or socket does: EAGAIN, EIO, ENOSPC, EISDIR
+    OsEagain,
+    OsEio,
+    OsEnospc,
+    OsEisdir,
 }
 
 impl ErrKind {
-    pub const ALL: [ErrKind; 7] = [
+    pub const ALL: [ErrKind; 11] = [
         ErrKind::Other,
         ErrKind::BrokenPipe,
         ErrKind::UnexpectedEof,
@@ -90,7 +96,27 @@ impl ErrKind {
         ErrKind::WouldBlock,
         ErrKind::ConnectionReset,
         ErrKind::InvalidData,
+        ErrKind::OsEagain,
+        ErrKind::OsEio,
+        ErrKind::OsEnospc,
+        ErrKind::OsEisdir,
     ];
+    fn os_code(self) -> Option<i32> {
+        match self {
+            ErrKind::OsEagain => Some(libc::EAGAIN),
+            ErrKind::OsEio => Some(libc::EIO),
+            ErrKind::OsEnospc => Some(libc::ENOSPC),
+            ErrKind::OsEisdir => Some(libc::EISDIR),
+            _ => None,
+        }
+    }
+    /// The error value a reader returns for this kind.
+    pub fn make(self, msg: &'static str) -> io::Error {
+        match self.os_code() {
+            Some(code) => io::Error::from_raw_os_error(code),
+            None => io::Error::new(self.to_io(), msg),
+        }
+    }
     pub fn to_io(self) -> ErrorKind {
         match self {
             ErrKind::Other => ErrorKind::Other,
@@ -100,6 +126,9 @@ impl ErrKind {
             ErrKind::WouldBlock => ErrorKind::WouldBlock,
             ErrKind::ConnectionReset => ErrorKind::ConnectionReset,
             ErrKind::InvalidData => ErrorKind::InvalidData,
+            ErrKind::OsEagain | ErrKind::OsEio | ErrKind::OsEnospc | ErrKind::OsEisdir => {
+                io::Error::from_raw_os_error(self.os_code().unwrap()).kind()
+            }
         }
     }
 }
@@ -226,7 +255,7 @@ impl Read for SimReader {
         }
         if let Some(k) = self.broken {
             log.events.push((5, k as u64));
-            return Err(io::Error::new(k.to_io(), "simulated persistent I/O error"));
+            return Err(k.make("simulated persistent I/O error"));
         }
         let remaining = self.data.len() - self.pos;
         let step = if self.si < self.script.len() {
@@ -260,7 +289,7 @@ impl Read for SimReader {
                 let c = log.calls;
                 log.hard_errors.push((c, k));
                 log.events.push((2, k as u64));
-                Err(io::Error::new(k.to_io(), "simulated I/O error"))
+                Err(k.make("simulated I/O error"))
             }
             ReadStep::FailForever(k) => {
                 let c = log.calls;
@@ -268,7 +297,7 @@ impl Read for SimReader {
                 log.persistent = true;
                 log.events.push((2, k as u64));
                 self.broken = Some(k);
-                Err(io::Error::new(k.to_io(), "simulated persistent I/O error"))
+                Err(k.make("simulated persistent I/O error"))
             }
             ReadStep::Eof => {
                 self.dead = true;
@@ -350,7 +379,7 @@ impl BufRead for SimBufReader {
         }
         if let Some(k) = self.broken {
             log.events.push((5, k as u64));
-            return Err(io::Error::new(k.to_io(), "simulated persistent I/O error"));
+            return Err(k.make("simulated persistent I/O error"));
         }
         let remaining = self.data.len() - self.pos;
         let step = if self.si < self.script.len() {
@@ -382,7 +411,7 @@ impl BufRead for SimBufReader {
                 let c = log.calls;
                 log.hard_errors.push((c, k));
                 log.events.push((2, k as u64));
-                Err(io::Error::new(k.to_io(), "simulated I/O error"))
+                Err(k.make("simulated I/O error"))
             }
             ReadStep::FailForever(k) => {
                 let c = log.calls;
@@ -390,7 +419,7 @@ impl BufRead for SimBufReader {
                 log.persistent = true;
                 log.events.push((2, k as u64));
                 self.broken = Some(k);
-                Err(io::Error::new(k.to_io(), "simulated persistent I/O error"))
+                Err(k.make("simulated persistent I/O error"))
             }
             ReadStep::Eof => {
                 self.dead = true;
